@@ -238,7 +238,15 @@ func (g *c19Gen) body(ci int, names []string, ctx string) *ast.Node {
 	}
 	if len(names) > 0 {
 		g.labels["binding-used-in-body"] = true
-		switch g.n(0, 4, "bodyform") {
+		switch g.n(0, 5, "bodyform") {
+		case 5:
+			// an expression body that is left by next (raised in a called function): the case's
+			// frame is gone all the same when the rules run for the next element
+			if ctx == "rule" || ctx == "loop" {
+				g.labels["next-through-expression-body"] = true
+				return ast.Call(ast.Id("c19skip"), ast.Id(names[0]))
+			}
+			return ast.Id(names[0])
 		case 4:
 			// a match directly inside this body that binds the same name again: the outer
 			// binding is back once the inner case has finished
@@ -319,6 +327,14 @@ func genC19(t *rapid.T) (*DCase, map[string]bool) {
 	set := func(n string, v *ast.Node) *ast.Node { return ast.ExprS(ast.Set(ast.Id(n), v)) }
 	var items []*ast.Node
 	var stmts []*ast.Node
+	// (from the second element on, the names hold what the rule left in them for the
+	// previous element: read them before they are set again, so that a binding that
+	// outlived its case shows)
+	top := []*ast.Node{ast.Str("TOP")}
+	for _, n := range c19Pool[:6] {
+		top = append(top, ast.Id(n))
+	}
+	stmts = append(stmts, ast.If(ast.Bin(">", ast.Id("$index"), ast.Num("0")), ast.Block(ast.Print(top...))))
 	stmts = append(stmts, set("glob", ast.Num("0")))
 	for _, n := range c19Pool {
 		stmts = append(stmts, set(n, ast.Str("outer-"+n)))
@@ -358,6 +374,16 @@ func genC19(t *rapid.T) (*DCase, map[string]bool) {
 			items = append(items, ast.Func(fn, []string{"v"}, ast.Block(ast.Return(g.match(ast.Id("v"), v, "function")), ast.Print(ast.Str("unreachable")))))
 			stmts = append(stmts, set(r, ast.Call(ast.Id(fn), subj)), ast.Print(ast.Str("R"), ast.Id(r)))
 			g.labels["match-in-function"] = true
+			// the same match evaluated again with other subjects, among them values that are ==
+			// to the first one without being the same value (1, "1", "1.0", true ...)
+			for extra, ne := 0, g.n(0, 3, "moresubjects"); extra < ne; extra++ {
+				alt := rapid.SampledFrom([]*ast.Node{
+					ast.Num("1"), ast.Str("1"), ast.Str("1.0"), ast.True(), ast.Num("0"), ast.Str("0"), ast.Str(""), ast.False(), ast.Null(), ast.Num("2"), ast.Str("2"),
+					ast.Str("a"), ast.Num("5"), ast.Str("5"), ast.Num("1.5"), ast.Str("1.50"), ast.Arr(ast.Num("1")), ast.Arr(ast.Str("1")), ast.Arr(), ast.Arr(ast.Num("0"), ast.Num("2")),
+				}).Draw(g.t, "altsubject").Clone()
+				stmts = append(stmts, set(r, ast.Call(ast.Id(fn), alt)), ast.Print(ast.Str("R+"), ast.Id(r)))
+				g.labels["match-site-reused-with-other-subjects"] = true
+			}
 		case 4: // inside a loop
 			lv := fmt.Sprintf("i%d", k)
 			stmts = append(stmts, ast.For(ast.Set(ast.Id(lv), ast.Num("0")), ast.Bin("<", ast.Id(lv), ast.Num("2")), ast.Post("++", ast.Id(lv)),
@@ -369,7 +395,8 @@ func genC19(t *rapid.T) (*DCase, map[string]bool) {
 		stmts = append(stmts, ast.Print(ast.Str("G"), ast.Id("glob"), ast.Id("x"), ast.Id("y"), ast.Id("z"), ast.Id("w")))
 	}
 	items = append(items, ast.Rule("pattern", nil, ast.Block(stmts...)))
-	items = append(items, ast.Rule("pattern", nil, ast.Block(ast.Print(ast.Str("second rule")))))
+	items = append(items, ast.Rule("pattern", nil, ast.Block(ast.Print(ast.Str("second rule")))),
+		ast.Func("c19skip", []string{"c19v"}, ast.Block(ast.Print(ast.Str("skip"), ast.Id("c19v")), ast.Next())))
 	return &DCase{Prog: ast.Prog(items...), Files: []DFile{{Name: "in", Docs: []string{"[1,2]"}}}}, g.labels
 }
 
